@@ -88,9 +88,11 @@ def parseMapCase (payload : List Sexp) : Option MapCase := do
   let prop := match p.field? "prop" with
     | some (.list [_, .atom x]) => x
     | _ => "C05"
+  let man := p.field? "manual"
   let slots := p.field? "slots"
   some { inp := { way := way, ic := ic, src := src, dest := dest, srcNew := sk == "new", destNew := dk == "new",
-                  fns := fns, mapperPtr := mptr, conv := conv },
+                  fns := fns, mapperPtr := mptr, conv := conv,
+                  manualW := atoms (man.bind (·.field? "w")), manualR := atoms (man.bind (·.field? "r")) },
          prop := prop, masks := atoms (p.field? "masks"), fmasks := atoms (p.field? "fmasks"),
          srcSlots := atoms (slots.bind (·.field? "src")), destSlots := atoms (slots.bind (·.field? "dest")) }
 
